@@ -186,7 +186,8 @@ def self_test():
 # ------------------------------------------------------------------ Gamma method by pair enumeration (C02/C03)
 def r_wmax(chains, reps, gap):
     """Largest admissible lag, mirrored from the implementation (documented as such):
-    equally spaced chain: len*step//gap ; otherwise (last-first+1)//gap ; w_max = max//2."""
+    equally spaced chain: len*step//gap ; otherwise the number of slots of the chain expanded to
+    the ensemble spacing, (last-first+gap)//gap ; w_max = max//2."""
     rl = []
     for n in reps:
         cs = sorted(chains[n])
@@ -194,7 +195,7 @@ def r_wmax(chains, reps, gap):
         if len(d) == 1:
             rl.append(len(cs) * list(d)[0] // gap)
         else:
-            rl.append((cs[-1] - cs[0] + 1) // gap)
+            rl.append((cs[-1] - cs[0] + gap) // gap)
     return max(rl) // 2
 
 
